@@ -819,7 +819,6 @@ _NOTHM = ("decided by the per-step correspondence between the real code and the 
           "the invariant that would state this property over all executions of the model is not proved yet - ")
 NO_THEOREM = {
     "C05": _NOTHM + "needs the ownership ledger invariant (I11); the model keeps a per-payload drop ledger (g_drops) that the correspondence compares with the real destructor calls",
-    "C09": _NOTHM + "needs the refinement to the reference specification; the oracle is the reference model itself",
     "C17": _NOTHM + "needs the allocation inventory invariant; the model keeps the allocation ledger (live/freed) that the correspondence compares with the real allocator events",
 }
 
